@@ -3,7 +3,7 @@
    sequence) pairs read from the FASTA files in database order (target before its decoy in concat mode).
    Reading the text file (line splitting, wrapping) and the csv layer of the map file are tied by correspondence. *)
 From PGF Require Import Base.Prelude Base.PyStr Base.StableSort Model.Digest Model.Grouping Model.Fasta
-  Proofs.FastaProofs.
+  Proofs.FastaProofs Proofs.MapProofs.
 From Coq Require Import Permutation.
 
 (* for each peptide exactly the proteins whose digestion yields it, in database order *)
@@ -61,6 +61,29 @@ Theorem C09_ibaq_number : forall dig records p seq,
   num_peptides (build_map dig (fun x => x) records) p = length (dedup [] (dig seq)).
 Proof. exact ibaq_number. Qed.
 Print Assumptions C09_ibaq_number.
+
+(* several parameter sets / files: the merged map lists, for every peptide, every protein of any of the maps exactly once, in
+   first-seen order (maps with distinct keys and no protein twice under a key - what build_map yields for distinct identifiers) *)
+Theorem C09_merge_over_parameter_sets : forall ms k, Forall map_wf ms ->
+  map_get (merge_maps ms) k = dedup [] (concat (map (fun m => map_get m k) ms)).
+Proof. exact merge_maps_get. Qed.
+Print Assumptions C09_merge_over_parameter_sets.
+
+Theorem C09_merged_map_membership : forall ms k p, Forall map_wf ms ->
+  (In p (map_get (merge_maps ms) k) <-> exists m, In m ms /\ In p (map_get m k)).
+Proof. exact merge_maps_membership. Qed.
+Print Assumptions C09_merged_map_membership.
+
+Theorem C09_merged_map_each_once : forall ms k, Forall map_wf ms -> NoDup (map_get (merge_maps ms) k).
+Proof. exact merge_maps_each_once. Qed.
+Print Assumptions C09_merged_map_each_once.
+
+(* the map file: reading what was written gives the map back (distinct peptides, non-empty protein lists, no ';' inside an identifier) *)
+Theorem C09_map_file_roundtrip : forall m,
+  NoDup (keys m) -> (forall k v, In (k, v) m -> v <> [] /\ forall p, In p v -> ~ In semicolon_chr p) ->
+  read_rows (write_rows m) = m.
+Proof. exact map_file_roundtrip. Qed.
+Print Assumptions C09_map_file_roundtrip.
 
 (* non-vacuity: two proteins sharing the tryptic peptide AAAAAAK; concat database *)
 Example C09_witness :
